@@ -44,7 +44,7 @@ def run(tier, rep):
     de.mc_mini(rep, 10 if quick else 12, liveness=False)
     # two-run lemma: a whole-byte truncation behaves exactly like the full payload until the first
     # field that crosses the cut, and then fails (PrefixMonotone, CutRule)
-    de.mc_pair(rep, "cut", 8 if quick else 12)
+    de.mc_pair(rep, "cut", 8 if quick else 13)
     for fb in ([4, 8] if quick else [4, 12]):
         recs, verdicts = de.judge_minis(rep, fb)
         rep.count("traces_validated_against_impl", len(recs))
